@@ -22,4 +22,10 @@ def sum (xs : List Int) : Int := xs.foldl (· + ·) 0
 def shl (a b : Int) : Int := a * 2 ^ b.toNat
 def shr (a b : Int) : Int := a / 2 ^ b.toNat
 
+/-- a Python object with the attributes `start`, `end` (a free-list `Chunk`); `end` is a Lean keyword: attributes carry a trailing `_` -/
+structure Obj where
+  start_ : Int
+  end_ : Int
+deriving DecidableEq, Repr
+
 end Py
